@@ -68,7 +68,7 @@ fn sweep<S: IntS + ToSample<T>, T: IntS + ToSample<S>>(ctx: &Ctx, tbl: &HashMap<
     let min = sf.min();
     let widening = tf.bits() >= sf.bits();
     dom.pieces.par_iter().for_each(|piece| {
-        guard::enter(&json!({"src": sf.name(), "dst": tf.name(), "entry": entry, "piece": piece.describe()}).to_string());
+        let _guard_scope = guard::scoped(&json!({"src": sf.name(), "dst": tf.name(), "entry": entry, "piece": piece.describe()}).to_string());
         let mut n = 0u64;
         let mut changes = 0u64;
         let mut prev: Option<i128> = None;
@@ -138,7 +138,7 @@ fn sweep_dyn(ctx: &Ctx, tbl: &HashMap<(Fmt, Fmt, &'static str), ConvFn>, tot: &T
     let f = tbl[&(sf, tf, entry)];
     let min = sf.min();
     dom.pieces.par_iter().for_each(|piece| {
-        guard::enter(&json!({"src": sf.name(), "dst": tf.name(), "entry": entry, "piece": piece.describe()}).to_string());
+        let _guard_scope = guard::scoped(&json!({"src": sf.name(), "dst": tf.name(), "entry": entry, "piece": piece.describe()}).to_string());
         let mut n = 0u64;
         let mut bad: Option<i128> = None;
         let r = catch(|| {
@@ -181,7 +181,7 @@ fn via_law(ctx: &Ctx, tbl: &HashMap<(Fmt, Fmt, &'static str), ConvFn>, tot: &Tot
     }
     ctx.set("via_triples", json!(triples.len()));
     triples.par_iter().for_each(|&(s, m, t)| {
-        guard::enter(&json!({"via": [s.name(), m.name(), t.name()]}).to_string());
+        let _guard_scope = guard::scoped(&json!({"via": [s.name(), m.name(), t.name()]}).to_string());
         let sm = tbl[&(s, m, "to_sample")];
         let mt = tbl[&(m, t, "to_sample")];
         let st = tbl[&(s, t, "to_sample")];
@@ -227,7 +227,7 @@ fn main() {
     }
     let tbl = table();
     if let Some(v) = ctx.replay_case() {
-        guard::enter(&v.to_string());
+        let _guard_scope = guard::scoped(&v.to_string());
         if let Some(via) = v["via"].as_array() {
             let f: Vec<Fmt> = via.iter().filter_map(|x| fmt_by_name(x.as_str()?)).collect();
             let x: i128 = v["v"].as_str().and_then(|s| s.parse().ok()).unwrap_or(0);
